@@ -37,8 +37,6 @@ SPEC = {
         "theorems are over exact reals; the driver executes the same definitions over IEEE doubles; dt, charges, delays, tolerances "
         "and selectors are dyadic so every grid / tolerance / range decision is exact, only exp() is rounded (1e-9 relative comparison)",
         "inputs[0] is a spike train (bool or 0/1 float64); injected currents (delta-plus) have the batched shape",
-        "undelayed synapses (delay 0) are queried with selectors of exactly the batched shape: the recordsz == 1 branch of "
-        "_synparam_at does not support the documented trailing selector dimension (re-observed every run, see coverage.undelayed_trailing_dim)",
         "tolerance >= 0 (SpikeMixin/CurrentMixin do not validate it; negative tolerances are outside the property)",
         "per-element model: elements of the batched tensor do not interact (C11 checks that separately); CPU, float64",
     ],
@@ -306,7 +304,7 @@ def make_steps(rng, cfg, T, D, fam=None, clear_at=None, query_every=1):
     return steps
 
 
-def base_cfg(rng, kind, dmul, mode, tolf, over_none, inplace, shape=(2,), batch=1):
+def base_cfg(rng, kind, dmul, mode, tolf, over_none, inplace, shape=(2,), batch=1, seldim=None):
     dt = rng.choice([0.25, 0.5, 1.0, 2.0])
     tau = rng.choice([2.0, 4.0, 5.0, 10.0, 20.0])
     cfg = {"kind": kind, "dt": dt, "delay": dmul * dt, "Q": rng.choice([1.0, 2.0, 0.5, -1.5, 25.0]),
@@ -314,7 +312,9 @@ def base_cfg(rng, kind, dmul, mode, tolf, over_none, inplace, shape=(2,), batch=
            "curOver": None if over_none else rng.choice([0.0, -7.0, 3.5]),
            "spkOver": None if over_none else rng.choice([False, True]),
            "inplace": inplace, "shape": list(shape), "batch": batch, "xbool": rng.random() < 0.5,
-           "ninj": rng.choice([0, 1, 2]), "seldim": dmul != 0}
+           "ninj": rng.choice([0, 1, 2]),
+           # selectors carry the documented trailing dimension [D] (B x N... x D) or have exactly the batched shape
+           "seldim": (rng.random() < 0.75) if seldim is None else seldim}
     return cfg
 
 
@@ -329,7 +329,7 @@ def boundary_cases(rng, T):
             for mode in "PN":
                 for tolf in (0.0, 0.25, 0.125):
                     for over_none in (False, True):
-                        cfg = base_cfg(rng, kind, dmul, mode, tolf, over_none, inplace=bool(i % 2))
+                        cfg = base_cfg(rng, kind, dmul, mode, tolf, over_none, inplace=bool(i % 2), seldim=(i % 3 != 2))
                         i += 1
                         cfg["steps"] = make_steps(rng, cfg, T, 6, fam=FAMS)
                         cases.append(cfg)
@@ -412,26 +412,6 @@ def describe(cfg, d):
     return s + f" is {got}, the {side} gives {want}"
 
 
-def undelayed_trailing_dim_probe():
-    """re-observe (not judge) the recordsz == 1 branch with the documented trailing selector dim"""
-    torch.set_default_dtype(torch.float64)
-    s = DeltaPlusCurrent((2,), 1.0, spike_charge=2.0, delay=0.0, current_overbound=-7.0, spike_overbound=True)
-    with torch.no_grad():
-        s(torch.tensor([[1.0, 0.0]]), torch.tensor([[0.5, 0.25]]))
-        sel = torch.tensor([[[0.0, 0.0], [0.0, 5.0]]])
-        try:
-            got = s.current_at(sel).tolist()
-        except Exception as e:
-            got = f"{type(e).__name__}"
-        try:
-            got3 = list(s.current_at(torch.zeros(1, 2, 3)).shape)
-        except Exception as e:
-            got3 = f"{type(e).__name__}"
-    return {"input": "DeltaPlusCurrent((2,),1.0,spike_charge=2,delay=0,current_overbound=-7); step x=[[1,0]] inj=[[.5,.25]]; "
-                     "current_at([[[0,0],[0,5]]])", "expected_per_property": [[[2.5, 2.5], [0.25, -7.0]]],
-            "observed": got, "observed_with_D=3": got3}
-
-
 def corpus_cases():
     import json
     from pathlib import Path
@@ -474,6 +454,7 @@ def explore(ctx) -> Exploration:
         ex.count("batch", str(cfg["batch"]))
         ex.count("shape", "x".join(map(str, cfg["shape"])))
         ex.count("recordsz", str(rsz))
+        ex.count("selector_shape", ("B x N x D" if cfg["seldim"] else "B x N") + (" (undelayed)" if rsz == 1 else ""))
         for st in cfg["steps"]:
             ex.evaluations += nelem(cfg) * (1 + 2 * len(st["sel"]))
             for col in st["sel"]:
@@ -514,7 +495,6 @@ def explore(ctx) -> Exploration:
     ex.samples = [{k: v for k, v in cases[ncorpus].items() if k != "steps"} | {"step0": cases[ncorpus]["steps"][0]},
                   {k: v for k, v in cases[-1].items() if k != "steps"} | {"step0": cases[-1]["steps"][0]}]
     ex.extra["streams"] = {"corpus": ncorpus, "boundary": nb, "random": len(cases) - nb - ncorpus, "driver_lines": len(lines)}
-    ex.extra["undelayed_trailing_dim"] = undelayed_trailing_dim_probe()
     return ex
 
 
